@@ -278,7 +278,7 @@ func (c *cors) handle(node types.Node, wh http.Header, r *http.Request) {
 		}
 		if c.allowHeadersString != "" {
 			wh.Set(header.AccessControlAllowHeaders, c.allowHeadersString)
-			wh.Add(header.Vary, header.AccessControlAllowHeaders)
+			wh.Add(header.Vary, header.AccessControlRequestHeaders)
 		}
 
 		// Access-Control-Max-Age
@@ -295,9 +295,9 @@ func (c *cors) handle(node types.Node, wh http.Header, r *http.Request) {
 			return
 		}
 		allowOrigin = origin
+		wh.Add(header.Vary, header.Origin) // 返回的内容取决于请求的 Origin 报头
 	}
 	wh.Set(header.AccessControlAllowOrigin, allowOrigin)
-	wh.Add(header.Vary, header.AccessControlAllowOrigin)
 
 	// Access-Control-Allow-Credentials
 	if c.AllowCredentials {
